@@ -255,3 +255,16 @@ M('c17_fold_no_scale', 'C17', (SH, "            positions = np.mod(positions, 1 
 M('c17_skip_identity_dup', 'C17', (SH, "            cluster.append(inversed)\n", "            if len(cluster) < 40:\n                cluster.append(inversed)\n"))
 M('c17_offsets_two_axes', 'C17', (SH, "            close -= np.round(close - sym_coords)\n", "            close[:, :2] -= np.round(close - sym_coords)[:, :2]\n"))
 M('c17_select_by_frac_norm', 'C17', (SH, "            dists = lattice.get_all_distances(sym_coords, positions)\n", "            dists = lattice.get_all_distances(np.mod(sym_coords, 1), positions) if abs(lattice.gamma - 90) < 1e-6 else lattice.get_all_distances(sym_coords, positions) * 1.01\n"))
+# ---- C18 -------------------------------------------------------------------------------------
+OR = 'orientations.py'
+U = 'utils.py'
+M('c18_one_periodic_correction', 'C18', (OR, "        direction = np.where(direction < -0.5, direction + 1, direction)\n", ""))
+M('c18_normalize_axis0', 'C18', (OR, "np.linalg.norm(self.vectors, axis=-1, keepdims=True)", "np.linalg.norm(self.vectors, axis=0, keepdims=True)"))
+M('c18_symmetrize_wrong_einsum', 'C18', (OR, "np.einsum('tbi,ijk->tbkj', self.vectors, sym_ops)", "np.einsum('tbi,jik->tbkj', self.vectors, sym_ops) if n_symops in (3, 4, 12) else np.einsum('tbi,ijk->tbkj', self.vectors, sym_ops)"))
+M('c18_autocorr_no_normalization', 'C18', (U, "        autocorrelation += autocorr_c.T / normalization\n", "        autocorrelation += autocorr_c.T\n"))
+M('c18_transform_no_transpose', 'C18', (OR, "        vectors = np.dot(self.vectors, matrix.T)\n", "        vectors = np.dot(self.vectors, matrix)\n"))
+M('c18_matching_first_four_sorted', 'C18', (OR, "        match_criteria = 1.5 * np.min(distance)\n", "        match_criteria = 4.2 * np.min(distance)\n"))
+M('c18_cart_from_abc', 'C18', (OR, "            self.vectors = lattice.get_cartesian_coords(direction)\n", "            self.vectors = direction * np.array(lattice.abc)\n"))
+M('c18_spherical_elevation_from_xy', 'C18', (U, "    el = np.arcsin(z / r)\n", "    el = np.arctan2(z, np.sqrt(x**2 + y**2) + 1e-3)\n"))
+M('c18_autocorr_abs', 'C18', (U, "        autocorr_c = autocorr_c[:n_times, :]\n", "        autocorr_c = np.abs(autocorr_c[:n_times, :])\n"))
+M('c18_symmetrize_drops_last_op', 'C18', (OR, "        n_symops = sym_ops.shape[2]\n", "        if sym_ops.shape[2] > 16:\n            sym_ops = sym_ops[:, :, :-1]\n        n_symops = sym_ops.shape[2]\n"))
